@@ -277,6 +277,29 @@ func c13Job(raw json.RawMessage) (any, error) {
 			}
 		}
 	}
+	// the group's own view of its routers: names unique, in order, removed ones gone
+	var wantNames []string
+	for _, r := range model {
+		if r.live {
+			wantNames = append(wantNames, r.name)
+		}
+	}
+	var gotNames []string
+	for _, r := range g.Routers() {
+		gotNames = append(gotNames, r.Name())
+	}
+	out.Evals++
+	if strings.Join(gotNames, ",") != strings.Join(wantNames, ",") {
+		rep("C13.unique-names", "routers-list-differs", "Group.Routers()", strings.Join(gotNames, ","), strings.Join(wantNames, ","))
+	}
+	for _, r := range model {
+		if got := g.Router(r.name); (got != nil) != r.live {
+			rep("C13.unique-names", "router-lookup-differs", "Group.Router("+r.name+")", fmt.Sprintf("found=%v", got != nil), fmt.Sprintf("found=%v", r.live))
+		}
+	}
+	if rs := g.Routes(); len(rs) != len(wantNames) {
+		rep("C13.unique-names", "routes-map-differs", "Group.Routes()", fmt.Sprintf("%d routers", len(rs)), fmt.Sprintf("%d routers", len(wantNames)))
+	}
 	table := ref.NewTable(nil, false)
 	table.Handle("/x", "hx", nil, "GET")
 	table.Handle("/{p}", "hp", nil, "GET")
